@@ -47,14 +47,6 @@ impl Permissioner {
             if stream_permissions.manage_topics || stream_permissions.read_topics {
                 return Ok(());
             }
-
-            if let Some(topics) = stream_permissions.topics.as_ref() {
-                if let Some(topic_permissions) = topics.get(&stream_id) {
-                    if topic_permissions.manage_topic || topic_permissions.read_topic {
-                        return Ok(());
-                    }
-                }
-            }
         }
 
         Err(IggyError::Unauthorized)
